@@ -495,7 +495,7 @@ impl NamingActor {
             } else {
                 let mut set = HashSet::new();
                 set.insert(instance_key.clone());
-                self.client_instance_set.insert(client_id, set);
+                self.client_instance_set.insert(client_id.clone(), set);
             }
         }
         let instance_short_key = instance.get_short_key();
@@ -527,6 +527,17 @@ impl NamingActor {
         }
         if let UpdateInstanceType::UpdateOtherClusterMetaData(_, _) = &tag {
             return tag;
+        }
+        if !client_id.is_empty() {
+            // the service may have kept the previous owner (an HTTP copy of an address that a
+            // gRPC connection registered): the instance then is not one of this client
+            if let Some(stored) = service.get_instance(&instance_short_key) {
+                if stored.client_id != client_id {
+                    if let Some(set) = self.client_instance_set.get_mut(&client_id) {
+                        set.remove(&instance_key);
+                    }
+                }
+            }
         }
         if let Some(replace_old_client_id) = replace_old_client_id {
             if let Some(set) = self.client_instance_set.get_mut(&replace_old_client_id) {
